@@ -145,18 +145,6 @@ func (vc *VC) evalCallWith(st *State, call *ast.CallExpr, preRecv *Term, preArgs
 			recv = &d
 		}
 	}
-	args := vc.adaptVariadic(st, sig, call, evalArgs())
-	if r, ok := vc.builtinExtern(st, callee, recv, args, call); ok {
-		return r
-	}
-	spec := vc.p.specFor(callee)
-	if spec == nil {
-		vc.fail(call, "callee %s has no contract", callee.FullName())
-	}
-	if vc.pure > 0 {
-		env := &SpecEnv{vc: vc, st: st, old: st, vars: map[string]Term{}, pkg: vc.pkg}
-		return []Term{env.expandPure(callee, recv, args, call)}
-	}
 	// instantiate generic signature at this call site
 	isig := sig
 	if id := identOf(fun); id != nil {
@@ -175,6 +163,18 @@ func (vc *VC) evalCallWith(st *State, call *ast.CallExpr, preRecv *Term, preArgs
 			}
 			isig = substSignature(sig, m)
 		}
+	}
+	args := vc.adaptVariadic(st, isig, call, evalArgs())
+	if r, ok := vc.builtinExtern(st, callee, recv, args, call); ok {
+		return r
+	}
+	spec := vc.p.specFor(callee)
+	if spec == nil {
+		vc.fail(call, "callee %s has no contract", callee.FullName())
+	}
+	if vc.pure > 0 {
+		env := &SpecEnv{vc: vc, st: st, old: st, vars: map[string]Term{}, pkg: vc.pkg}
+		return []Term{env.expandPure(callee, recv, args, call)}
 	}
 	return vc.callByContract(st, spec, callee, isig, recv, args, call)
 }
